@@ -11,7 +11,7 @@ def run(c):
     c.outside += ['documents the reader rejects', 'invoke start failures (C14 harness)', 'ECMAScript datamodel', 'real thread scheduling']
     c.run_m('h_c12_send_errors', expect_checks=(1202, 1203, 1204, 1205, 1206, 1207, 1208, 1209), expect_cover=(1201,),
             bounds={'target forms': 9, 'types': 4, 'failing argument': 'none/targetexpr/eventexpr/param/namelist/delayexpr/typeexpr', 'parent/child present': 'both'}, diff_samples=4)
-    c.run_m('h_c12_loop_survives', expect_checks=(1210,), expect_cover=(1210,), env={'map_order': 'insertion'}, bounds={'failing send inside a transition body, then cancel': 'targets #_parent(no parent), #_child(none), unknown session, malformed, unsupported'})
+    c.run_m('h_c12_loop_survives', expect_checks=(1210,), expect_cover=(1210,), env={'map_order': 'insertion', 'budget_is_hang': True}, bounds={'failing send inside a transition body, then cancel': 'targets #_parent(no parent), #_child(none), unknown session, malformed, unsupported'})
     # evaluation never panics (shared with C11) and executable content errors do not stop the interpreter (shared with C08)
     c.run_m('h_c11_texts', expect_checks=(1120,), expect_cover=(1120,), only={1120}, bounds={'texts': 24})
     c.run_m('h_c08_block', expect_checks=(803,), expect_cover=(801,), only={803}, bounds={'kinds': 13})
